@@ -42,7 +42,7 @@ REQUIRED = ('pluribus_lines_compared', 'acpc_viewer_sequences_compared',
             'allin_hands', 'showdown_hands', 'folded_out_hands',
             'raise_amounts_rendered', 'min_bet_differs_from_big_blind',
             'hands_with_manual_mucks', 'post_hand_voluntary_shows',
-            'multi_line_logs_parsed')
+            'multi_line_logs_parsed', 'parsed_with_the_other_mode')
 
 
 def render(state, variant, hand_number, players=None):
@@ -178,6 +178,9 @@ def check_case(res, rng):
     pol['partial_show'] = False
     if pol['deal'] in ('unknown',):
         pol['deal'] = 'default'
+    if cfg['mode'] == 'CASH_GAME' and rng.random() < 0.2:
+        cfg['strict'] = False          # open folds (warned, not refused)
+        pol['policy'] = 'foldy'
     if rng.random() < 0.12:
         # players who muck hands the automation would have shown (winners
         # included): the recorded muck must stay a muck
@@ -299,9 +302,18 @@ def check_case(res, rng):
             res.counters['renderer_only_hands'] += 1
             res.sigs.add(sig(variant, cfg['n'], 'mucks', line.split(':')[2]))
             return
+        # the game handed to the parser is "the same game": same stakes,
+        # but not necessarily built in the same mode as the table the hand
+        # was played at (the protocol has no notion of it)
+        pgame = game
+        if rng.random() < 0.5:
+            other = 'TOURNAMENT' if cfg['mode'] == 'CASH_GAME' else \
+                'CASH_GAME'
+            pgame = gen.build_game(dict(cfg, mode=other))
+            res.counters['parsed_with_the_other_mode'] += 1
         try:
             parsed = list(HandHistory.from_acpc_protocol(
-                game, stack, line, error_status=True))
+                pgame, stack, line, error_status=True))
         except Exception as exc:   # noqa: BLE001
             res.violation(f'from_acpc_protocol refused the line {line!r}: '
                           f'{type(exc).__name__}: {exc} || {what}', payload)
